@@ -463,7 +463,7 @@ def _more_dimensions(cfg, rng, force):
         d0 = pd.Timestamp(g["dates"][0])
         g["values"] = [round(max(0.3, base + rate * (pd.Timestamp(d) - d0).days), 4) for d in g["dates"]]
     for key in ("field", "fallow_field"):
-        if key in force or rng.random() >= 0.2:
+        if key in force or rng.random() >= (0.6 if force.get("inert") else 0.2):
             continue
         f = dict(cfg.get(key) or {})
         if not f.get("mulches") and rng.random() < 0.6: f.update(mulch_pct=rng.choice([30, 80]), f_mulch=rng.choice([0.3, 0.9]))
